@@ -298,7 +298,7 @@ package meta
 //@   trusted_assigns nothing
 
 //@ func IndexGroupInfo.clone
-//@   carries igi -> result
+//@   carries igi -> result shared ClearInfo(pointer copied by the struct copy: aliased, not decided)
 //@   trusted_assigns nothing
 
 //@ func UserInfo.clone
@@ -315,7 +315,76 @@ package meta
 //@   carries rpi -> result shared Subscriptions(aliased by the clone; mutated in place by DropSubscription: snapshot race not decided), DownSamplePolicyInfo(aliased by the clone: not decided)
 //@   trusted_assigns nothing
 
+//@ func ContinuousQueryInfo.Clone
+//@   ensures result != nil && fresh(result)
+//@   carries cqi -> result
+//@   trusted_assigns nothing
+
 //@ func DatabaseInfo.clone
 //@   ensures result != nil && fresh(result)
 //@   carries di -> result shared ObsOptions(aliased by the clone: not decided)
+//@   trusted_assigns nothing
+
+// ---- Data.Clone: the snapshot of the whole catalogue
+//@ func StreamInfo.clone
+//@   ensures result != nil && fresh(result)
+//@   trusted_assigns nothing
+//@ func (*MigrateEventInfo).Clone
+//@   trusted_assigns nothing
+//@ func NodeInfo.clone
+//@   carries ni -> result
+//@   trusted_assigns nothing
+//@ func (*Data).CloneDatabases
+//@   requires data != nil
+//@   ensures (result == nil) == (data.Databases == nil)
+//@   ensures result != nil ==> fresh(result)
+//@   trusted_assigns nothing
+//@ func (*Data).CloneStreams
+//@   requires data != nil
+//@   ensures (result == nil) == (data.Streams == nil)
+//@   ensures result != nil ==> fresh(result)
+//@   trusted_assigns nothing
+//@ func (*Data).CloneDataNodes
+//@   ensures data != nil ==> len(result) == len(data.DataNodes)
+//@   ensures fresh(result)
+//@   trusted_assigns nothing
+//@ func (*Data).CloneSqlNodes
+//@   ensures data != nil ==> len(result) == len(data.SqlNodes)
+//@   ensures fresh(result)
+//@   trusted_assigns nothing
+//@ func (*Data).CloneMetaNodes
+//@   requires data != nil
+//@   ensures len(result) == len(data.MetaNodes)
+//@   ensures fresh(result)
+//@   trusted_assigns nothing
+//@ func (*Data).CloneQueryIDInit
+//@   requires data != nil
+//@   ensures (result == nil) == (data.QueryIDInit == nil)
+//@   ensures result != nil ==> fresh(result)
+//@   trusted_assigns nothing
+//@ func (*Data).CloneDBPtView
+//@   requires data != nil
+//@   ensures (result == nil) == (data.PtView == nil)
+//@   ensures result != nil ==> fresh(result)
+//@   trusted_assigns nothing
+//@ func (*Data).CloneUsers
+//@   requires data != nil
+//@   ensures len(result) == len(data.Users)
+//@   ensures fresh(result)
+//@   trusted_assigns nothing
+//@ func (*Data).CloneMigrateEvents
+//@   requires data != nil
+//@   ensures (result == nil) == (data.MigrateEvents == nil)
+//@   ensures result != nil ==> fresh(result)
+//@   trusted_assigns nothing
+
+//@ func (*Data).Clone
+//@   requires data != nil
+//@   ensures result != nil && fresh(result)
+//@   carries data -> result except opsMapMu(a lock is not catalogue state) shared OpsMap(operation log shared with the live catalogue by design of incremental sync: not decided), SQLite(handle to the external sqlite wrapper)
+//@   trusted_assigns nothing
+//@ func (*Data).CloneReplicaGroups
+//@   requires data != nil
+//@   ensures (result == nil) == (data.ReplicaGroups == nil)
+//@   ensures result != nil ==> fresh(result)
 //@   trusted_assigns nothing
